@@ -1080,10 +1080,10 @@ type mapIter struct {
 
 func (it *mapIter) next(e *Engine) Tuple {
 	for it.i < len(it.keys) {
-		k := it.keys[it.i]
+		en := it.keys[it.i].(*mapEntry)
 		it.i++
-		if v, ok := it.m.lookupExact(k); ok {
-			return Tuple{true, k, copyVal(v)}
+		if !en.dead {
+			return Tuple{true, en.k, copyVal(en.v)}
 		}
 	}
 	return Tuple{false, nil, nil}
